@@ -24,6 +24,7 @@ import (
 	"strings"
 
 	sdkmath "cosmossdk.io/math"
+	sdk "github.com/cosmos/cosmos-sdk/types"
 	"github.com/ethereum/go-ethereum/common"
 
 	fxtypes "github.com/functionx/fx-core/v8/types"
@@ -319,7 +320,7 @@ func u64Perturb(v uint64) []uv {
 // the search
 
 // sampleEvery: one perturbation variant in this many is also sent through the Lean model
-const sampleEvery = 12
+const sampleEvery = 16
 
 func (r *run) variant(g *gen, k *kind, what string, base claim, hb, vb, lb string, v claim) {
 	r.nVariants++
@@ -611,6 +612,70 @@ func (r *run) formatResplit(g *gen, k *kind, base claim) {
 		r.out.Count("resplit:" + k.tag)
 		r.pair(k, "the split of "+segs[i].Field+"/"+segs[i+1].Field, base, b)
 	}
+}
+
+// ---------------------------------------------------------------------------------------------------------
+// corpus: pairs of claims of dangerous shapes kept from earlier findings (corpus/C03/*.json), run first
+
+type corpusPair struct {
+	Kind string          `json:"kind"`
+	What string          `json:"what"`
+	A    json.RawMessage `json:"a"`
+	B    json.RawMessage `json:"b"`
+}
+
+type loadedPair struct {
+	k    *kind
+	what string
+	a, b claim
+}
+
+func loadCorpus(ks map[string]*kind) (out []loadedPair) {
+	dir := os.Getenv("VERIF_CORPUS")
+	if dir == "" {
+		return nil
+	}
+	ents, err := os.ReadDir(dir)
+	if err != nil {
+		return nil
+	}
+	for _, en := range ents {
+		if !strings.HasSuffix(en.Name(), ".json") {
+			continue
+		}
+		bz, err := os.ReadFile(dir + "/" + en.Name())
+		if err != nil {
+			continue
+		}
+		var ps []corpusPair
+		if err := json.Unmarshal(bz, &ps); err != nil {
+			panic("corpus " + en.Name() + ": " + err.Error())
+		}
+		for _, p := range ps {
+			k := ks[p.Kind]
+			if k == nil {
+				panic("corpus: unknown kind " + p.Kind)
+			}
+			a, b := k.clone(k.zero()), k.clone(k.zero())
+			if err := json.Unmarshal(p.A, a); err != nil {
+				panic("corpus " + p.What + ": " + err.Error())
+			}
+			if err := json.Unmarshal(p.B, b); err != nil {
+				panic("corpus " + p.What + ": " + err.Error())
+			}
+			// "@" stands for a valid fx account address
+			for _, c := range []claim{a, b} {
+				v := elem(c)
+				for i := 0; i < v.NumField(); i++ {
+					if f := v.Field(i); f.Kind() == reflect.String && f.String() == "@" {
+						f.SetString(sdk.AccAddress(make([]byte, 20)).String())
+					}
+				}
+			}
+			out = append(out, loadedPair{k, p.What, a, b})
+		}
+	}
+	return out
 }
 
 func hx_pick(g *gen, xs []string) string { return xs[g.rng.Intn(len(xs))] }
